@@ -12,10 +12,12 @@
     inside the text becomes a single space, or nothing when the byte before or the
     byte after it is '<' or '>'.
 
-  One documented-nowhere quirk of the implementation is part of this spec so that
-  the comparison is exact: the byte NUL counts like '<'/'>' (the Go code uses rune 0
-  for "no neighbour").  The property theorems are stated for NUL-free text, where
-  the rule is exactly the documented one.
+  No byte is special beyond that: in particular NUL is an ordinary character.  (Until /repo
+  4eb5547 the Go code used rune 0 for "no neighbour", so NUL counted like '<' / '>', and this
+  specification recorded that quirk as `tight b = … || b == 0`; the code now uses a mark that
+  decoding never yields, and the rule is exactly the documented one on EVERY byte string.)
+  `lastByte` / `firstByte` are only ever applied to chunks, which `tokenize` never leaves empty;
+  their default value plays no role.
 -/
 import SoyVerif.Base.Bytes
 
@@ -24,7 +26,7 @@ namespace SoyVerif.Spec
 def isWs (b : UInt8) : Bool := b == 32 || b == 9 || b == 13 || b == 10
 def isNL (b : UInt8) : Bool := b == 13 || b == 10
 def hasNL (w : Bytes) : Bool := w.any isNL
-def tight (b : UInt8) : Bool := b == 60 || b == 62 || b == 0
+def tight (b : UInt8) : Bool := b == 60 || b == 62
 
 inductive Tok where
   | ws (w : Bytes)
@@ -51,19 +53,20 @@ def innerWs (p q : UInt8) (w : Bytes) : Bytes :=
 def edgeWs (trim : Bool) (w : Bytes) : Bytes :=
   if hasNL w || trim then [] else w
 
-/-- tokens after the first one; `p` is the last byte of the preceding chunk -/
+/-- the tokens behind a chunk; `p` is the last byte of that chunk -/
 def renderRest (ta : Bool) (p : UInt8) : List Tok → Bytes
   | [] => []
   | [Tok.ws w] => edgeWs ta w
   | Tok.ws w :: Tok.chunk c :: ts => innerWs p (firstByte c) w ++ c ++ renderRest ta (lastByte c) ts
   | Tok.chunk c :: ts => c ++ renderRest ta (lastByte c) ts     -- (not produced by tokenize after a chunk)
-  | Tok.ws w :: ts => innerWs p 0 w ++ renderRest ta p ts        -- (not produced by tokenize: two runs in a row)
+  | Tok.ws w :: ts => innerWs p p w ++ renderRest ta p ts        -- (not produced by tokenize: two runs in a row)
 
 def render (tb ta : Bool) : List Tok → Bytes
   | [] => []
   | [Tok.ws w] => if hasNL w || tb || ta then [] else w
-  | Tok.ws w :: ts => edgeWs tb w ++ renderRest ta 0 ts
-  | ts => renderRest ta 0 ts
+  | Tok.ws w :: Tok.chunk c :: ts => edgeWs tb w ++ c ++ renderRest ta (lastByte c) ts
+  | Tok.chunk c :: ts => c ++ renderRest ta (lastByte c) ts
+  | Tok.ws w :: ts => edgeWs tb w ++ render tb ta ts             -- (not produced by tokenize: two runs in a row)
 
 def joinLines (s : Bytes) (tb ta : Bool) : Bytes := render tb ta (tokenize s)
 
